@@ -1,5 +1,466 @@
 package main
 
+// Gen/Tables.lean: per-type metadata (GetCommand, GenEmptyResponse, Get/SetSequenceID), the
+// dispatcher switches, and constants / lookup tables of the hand-modelled algorithms.
+
+import (
+	"fmt"
+	"go/ast"
+	"go/constant"
+	"go/token"
+	"go/types"
+	"sort"
+	"strings"
+)
+
+type valExpr struct {
+	e *env
+	x ast.Expr
+}
+
+func (w *world) methodOf(named *types.Named, name string) (*ast.FuncDecl, *types.Info) {
+	fd := w.method(named, name)
+	if fd == nil {
+		return nil, nil
+	}
+	return fd, w.infoOf[fd]
+}
+
+func newEnv(info *types.Info) *env {
+	return &env{info: info, paths: map[types.Object]string{}, locals: map[types.Object]string{}, bytesL: map[types.Object]string{}}
+}
+
+func constU64(info *types.Info, x ast.Expr) (uint64, bool) {
+	if tv, ok := info.Types[x]; ok && tv.Value != nil && tv.Value.Kind() == constant.Int {
+		return constant.Uint64Val(tv.Value)
+	}
+	return 0, false
+}
+
+// cmdSpec translates GetCommand.
+func (w *world) cmdSpec(named *types.Named) string {
+	fd, info := w.methodOf(named, "GetCommand")
+	if fd == nil {
+		return `.unknown "no GetCommand"`
+	}
+	e := newEnv(info)
+	if ro := recvObj(info, fd); ro != nil {
+		e.paths[ro] = ""
+	}
+	body := fd.Body.List
+	if len(body) == 1 {
+		if r, ok := body[0].(*ast.ReturnStmt); ok && len(r.Results) == 1 {
+			if n, ok := constU64(info, r.Results[0]); ok {
+				return fmt.Sprintf(".const %d", n)
+			}
+		}
+	}
+	// switch p.F { case A, B: return p.F }; return C
+	if len(body) == 2 {
+		sw, ok1 := body[0].(*ast.SwitchStmt)
+		ret, ok2 := body[1].(*ast.ReturnStmt)
+		if ok1 && ok2 && sw.Init == nil && sw.Tag != nil && len(ret.Results) == 1 && len(sw.Body.List) == 1 {
+			if fp, ok := w.fieldPath(e, sw.Tag); ok {
+				cc := sw.Body.List[0].(*ast.CaseClause)
+				if len(cc.Body) == 1 {
+					if r, ok := cc.Body[0].(*ast.ReturnStmt); ok && len(r.Results) == 1 {
+						if fp2, ok := w.fieldPath(e, r.Results[0]); ok && fp2 == fp {
+							var allowed []string
+							good := true
+							for _, c := range cc.List {
+								n, ok := constU64(info, c)
+								if !ok {
+									good = false
+								}
+								allowed = append(allowed, fmt.Sprint(n))
+							}
+							if d, ok := constU64(info, ret.Results[0]); ok && good {
+								return fmt.Sprintf(".hdrOr %s [%s] %d", q(fp), strings.Join(allowed, ", "), d)
+							}
+						}
+					}
+				}
+			}
+		}
+	}
+	return fmt.Sprintf(".unknown %s", q(w.pos(fd)))
+}
+
+// seqGet / seqSet translate Get/SetSequenceID to a field path.
+func (w *world) seqGet(named *types.Named) string {
+	fd, info := w.methodOf(named, "GetSequenceID")
+	if fd == nil || len(fd.Body.List) != 1 {
+		return "?"
+	}
+	e := newEnv(info)
+	if ro := recvObj(info, fd); ro != nil {
+		e.paths[ro] = ""
+	}
+	if r, ok := fd.Body.List[0].(*ast.ReturnStmt); ok && len(r.Results) == 1 {
+		if p, ok := w.fieldPath(e, r.Results[0]); ok {
+			return p
+		}
+	}
+	return "?"
+}
+
+func (w *world) seqSet(named *types.Named) string {
+	fd, info := w.methodOf(named, "SetSequenceID")
+	if fd == nil || len(fd.Body.List) != 1 || len(fd.Type.Params.List) != 1 || len(fd.Type.Params.List[0].Names) != 1 {
+		return "?"
+	}
+	e := newEnv(info)
+	if ro := recvObj(info, fd); ro != nil {
+		e.paths[ro] = ""
+	}
+	if a, ok := fd.Body.List[0].(*ast.AssignStmt); ok && a.Tok == token.ASSIGN && len(a.Lhs) == 1 && len(a.Rhs) == 1 {
+		if id, ok := unparen(a.Rhs[0]).(*ast.Ident); ok && info.ObjectOf(id) == info.ObjectOf(fd.Type.Params.List[0].Names[0]) {
+			if p, ok := w.fieldPath(e, a.Lhs[0]); ok {
+				return p
+			}
+		}
+	}
+	return "?"
+}
+
+// headerFields expands a header expression (composite literal or NewHeader-style constructor call)
+// into field path -> value expression (with the environment it must be read in).
+func (w *world) headerFields(e *env, x ast.Expr, prefix string, out map[string]valExpr) bool {
+	x = unparen(x)
+	switch v := x.(type) {
+	case *ast.CompositeLit:
+		t := e.info.TypeOf(v)
+		switch u := t.Underlying().(type) {
+		case *types.Struct:
+			for i, el := range v.Elts {
+				kv, ok := el.(*ast.KeyValueExpr)
+				name := ""
+				var val ast.Expr
+				if ok {
+					name = kv.Key.(*ast.Ident).Name
+					val = kv.Value
+				} else {
+					if i >= u.NumFields() {
+						return false
+					}
+					name = u.Field(i).Name()
+					val = el
+				}
+				p := name
+				if prefix != "" {
+					p = prefix + "." + name
+				}
+				if cl, ok := unparen(val).(*ast.CompositeLit); ok {
+					if !w.headerFields(e, cl, p, out) {
+						return false
+					}
+					continue
+				}
+				if call, ok := unparen(val).(*ast.CallExpr); ok {
+					if _, isStruct := e.info.TypeOf(call).Underlying().(*types.Struct); isStruct {
+						if w.headerFields(e, call, p, out) {
+							continue
+						}
+					}
+				}
+				out[p] = valExpr{e, val}
+			}
+			return true
+		case *types.Array:
+			for i, el := range v.Elts {
+				out[fmt.Sprintf("%s.%d", prefix, i)] = valExpr{e, el}
+			}
+			return true
+		}
+	case *ast.CallExpr:
+		fn, recv := w.callee(e, v)
+		if fn == nil || recv != nil {
+			return false
+		}
+		fd := w.funcs[fn]
+		if fd == nil || fd.Body == nil || len(fd.Body.List) != 1 {
+			return false
+		}
+		ret, ok := fd.Body.List[0].(*ast.ReturnStmt)
+		if !ok || len(ret.Results) != 1 {
+			return false
+		}
+		finfo := w.infoOf[fd]
+		// bind parameters to argument expressions
+		args := map[types.Object]valExpr{}
+		idx := 0
+		for _, pf := range fd.Type.Params.List {
+			for _, nm := range pf.Names {
+				if idx < len(v.Args) {
+					args[finfo.ObjectOf(nm)] = valExpr{e, v.Args[idx]}
+				}
+				idx++
+			}
+		}
+		ne := newEnv(finfo)
+		tmp := map[string]valExpr{}
+		if !w.headerFields(ne, ret.Results[0], prefix, tmp) {
+			return false
+		}
+		for k, ve := range tmp {
+			if id, ok := unparen(ve.x).(*ast.Ident); ok {
+				if a, ok := args[finfo.ObjectOf(id)]; ok {
+					out[k] = a
+					continue
+				}
+			}
+			out[k] = ve
+		}
+		return true
+	}
+	return false
+}
+
+// respSpec translates GenEmptyResponse.
+func (w *world) respSpec(pi pduInfo, getSeq string) string {
+	fd, info := w.methodOf(pi.named, "GenEmptyResponse")
+	if fd == nil {
+		return `.unknown "no GenEmptyResponse"`
+	}
+	e := newEnv(info)
+	recv := recvObj(info, fd)
+	if recv != nil {
+		e.paths[recv] = ""
+	}
+	unk := fmt.Sprintf(".unknown %s", q(w.pos(fd)))
+	body := fd.Body.List
+	// optional leading:  id := CONST; switch p.F { case A: id = X; case B: id = Y }
+	var idObj types.Object
+	rcmdByReq := ""
+	if len(body) == 3 {
+		as, ok1 := body[0].(*ast.AssignStmt)
+		sw, ok2 := body[1].(*ast.SwitchStmt)
+		if !ok1 || !ok2 || as.Tok != token.DEFINE || len(as.Lhs) != 1 || sw.Tag == nil {
+			return unk
+		}
+		d, ok := constU64(info, as.Rhs[0])
+		fp, ok3 := w.fieldPath(e, sw.Tag)
+		if !ok || !ok3 {
+			return unk
+		}
+		idObj = info.ObjectOf(as.Lhs[0].(*ast.Ident))
+		var rows []string
+		for _, st := range sw.Body.List {
+			cc := st.(*ast.CaseClause)
+			if len(cc.Body) != 1 {
+				return unk
+			}
+			a, ok := cc.Body[0].(*ast.AssignStmt)
+			if !ok || a.Tok != token.ASSIGN || len(a.Lhs) != 1 || !isObj(e, a.Lhs[0], idObj) {
+				return unk
+			}
+			v, ok := constU64(info, a.Rhs[0])
+			if !ok {
+				return unk
+			}
+			for _, c := range cc.List {
+				k, ok := constU64(info, c)
+				if !ok {
+					return unk
+				}
+				rows = append(rows, fmt.Sprintf("(%d, %d)", k, v))
+			}
+		}
+		rcmdByReq = fmt.Sprintf("(.byReq %s [%s] %d)", q(fp), strings.Join(rows, ", "), d)
+		body = body[2:]
+	}
+	if len(body) != 1 {
+		return unk
+	}
+	ret, ok := body[0].(*ast.ReturnStmt)
+	if !ok || len(ret.Results) != 1 {
+		return unk
+	}
+	if id, ok := unparen(ret.Results[0]).(*ast.Ident); ok && id.Name == "nil" {
+		return ".none"
+	}
+	un, ok := unparen(ret.Results[0]).(*ast.UnaryExpr)
+	if !ok || un.Op != token.AND {
+		return unk
+	}
+	cl, ok := un.X.(*ast.CompositeLit)
+	if !ok {
+		return unk
+	}
+	rt, ok := info.TypeOf(cl).(*types.Named)
+	if !ok {
+		return unk
+	}
+	rname := rt.Obj().Pkg().Name() + "." + rt.Obj().Name()
+	fields := map[string]valExpr{}
+	if !w.headerFields(e, cl, "", fields) {
+		return unk
+	}
+	cmdField, seqField := "", ""
+	rcmd := ""
+	seqOK := false
+	keys := make([]string, 0, len(fields))
+	for k := range fields {
+		keys = append(keys, k)
+	}
+	sort.Strings(keys)
+	for _, k := range keys {
+		ve := fields[k]
+		last := k[strings.LastIndexByte(k, '.')+1:]
+		switch {
+		case last == "CommandID" || last == "ID":
+			cmdField = k
+			if n, ok := constU64(ve.e.info, ve.x); ok {
+				rcmd = fmt.Sprintf("(.const %d)", n)
+			} else if idObj != nil && isObj(ve.e, ve.x, idObj) {
+				rcmd = rcmdByReq
+			}
+		}
+		// the request's sequence identifier: p.GetSequenceID() or the field it returns
+		isSeq := false
+		if c, ok := unparen(ve.x).(*ast.CallExpr); ok && len(c.Args) == 0 {
+			if fn, r := w.callee(ve.e, c); fn != nil && fn.Name() == "GetSequenceID" && r != nil {
+				if p, ok := w.fieldPath(ve.e, r); ok && p == "" {
+					isSeq = true
+				}
+			}
+		} else if p, ok := w.fieldPath(ve.e, ve.x); ok && p == getSeq && ve.e == e {
+			isSeq = true
+		}
+		if isSeq && (last == "SequenceID" || last == "Sequence" || last == "2") {
+			seqField = k
+			seqOK = true
+		}
+	}
+	if rcmd == "" || cmdField == "" {
+		return unk
+	}
+	return fmt.Sprintf(".some %s %s %s %s %v", q(rname), rcmd, q(cmdField), q(seqField), seqOK)
+}
+
+func hasMethods(named *types.Named, names ...string) bool {
+	ms := types.NewMethodSet(types.NewPointer(named))
+	for _, n := range names {
+		if ms.Lookup(named.Obj().Pkg(), n) == nil {
+			return false
+		}
+	}
+	return true
+}
+
+// dispatchers: func DecodeXxx(data []byte) (sms.PDU, error) with a switch allocating PDU types.
+func (w *world) dispatchers() []string {
+	var res []string
+	var fns []*types.Func
+	for fn := range w.funcs {
+		if fn.Pkg() != nil && strings.HasPrefix(fn.Pkg().Path(), modPath) && strings.HasPrefix(fn.Name(), "Decode") {
+			sig := fn.Type().(*types.Signature)
+			if sig.Recv() == nil && sig.Results().Len() == 2 && sig.Params().Len() == 1 && strings.HasSuffix(sig.Results().At(0).Type().String(), ".PDU") {
+				fns = append(fns, fn)
+			}
+		}
+	}
+	sort.Slice(fns, func(i, j int) bool { return fns[i].FullName() < fns[j].FullName() })
+	for _, fn := range fns {
+		fd := w.funcs[fn]
+		info := w.infoOf[fd]
+		e := newEnv(info)
+		var cases []string
+		cmdField := "?"
+		unknownIsErr := false
+		peekMin := 0
+		var hdrObj types.Object
+		for _, st := range fd.Body.List {
+			switch s := st.(type) {
+			case *ast.AssignStmt:
+				// header, err := pkg.PeekHeader(data)
+				if len(s.Lhs) == 2 && len(s.Rhs) == 1 {
+					if c, ok := s.Rhs[0].(*ast.CallExpr); ok {
+						if pf, _ := w.callee(e, c); pf != nil && pf.Name() == "PeekHeader" {
+							hdrObj = info.ObjectOf(s.Lhs[0].(*ast.Ident))
+							e.paths[hdrObj] = "Header"
+							peekMin = w.peekMin(pf)
+						}
+					}
+				}
+			case *ast.SwitchStmt:
+				if s.Tag != nil {
+					if p, ok := w.fieldPath(e, s.Tag); ok {
+						cmdField = p
+					}
+					for _, c := range s.Body.List {
+						cc := c.(*ast.CaseClause)
+						tname := "?"
+						if len(cc.Body) == 1 {
+							if a, ok := cc.Body[0].(*ast.AssignStmt); ok && len(a.Rhs) == 1 {
+								if call, ok := a.Rhs[0].(*ast.CallExpr); ok {
+									if id, ok := call.Fun.(*ast.Ident); ok && id.Name == "new" && len(call.Args) == 1 {
+										if nt, ok := info.TypeOf(call.Args[0]).(*types.Named); ok {
+											tname = nt.Obj().Pkg().Name() + "." + nt.Obj().Name()
+										}
+									}
+								}
+							}
+						}
+						for _, cx := range cc.List {
+							if n, ok := constU64(info, cx); ok {
+								cases = append(cases, fmt.Sprintf("(%d, %s)", n, q(tname)))
+							} else {
+								cases = append(cases, fmt.Sprintf("(0, %s)", q("?"+w.pos(cx))))
+							}
+						}
+					}
+				}
+			case *ast.IfStmt:
+				// if pdu == nil { return nil, sms.ErrUnsupportedPacket }
+				if types.ExprString(s.Cond) == "pdu == nil" && len(s.Body.List) == 1 {
+					if r, ok := s.Body.List[0].(*ast.ReturnStmt); ok && len(r.Results) == 2 && strings.HasSuffix(types.ExprString(r.Results[1]), "ErrUnsupportedPacket") {
+						unknownIsErr = true
+					}
+				}
+			}
+		}
+		res = append(res, fmt.Sprintf("{ name := %s, pkg := %s, cmdField := %s, cases := [%s], unknownIsError := %v, peekMin := %d }",
+			q(fn.Pkg().Name()+"."+fn.Name()), q(fn.Pkg().Name()), q(cmdField), strings.Join(cases, ", "), unknownIsErr, peekMin))
+	}
+	return res
+}
+
+// peekMin: the N of `if len(buf) < N` at the top of PeekHeader.
+func (w *world) peekMin(fn *types.Func) int {
+	fd := w.funcs[fn]
+	if fd == nil || fd.Body == nil || len(fd.Body.List) == 0 {
+		return 0
+	}
+	if s, ok := fd.Body.List[0].(*ast.IfStmt); ok {
+		if b, ok := s.Cond.(*ast.BinaryExpr); ok && b.Op == token.LSS {
+			if n, ok := constU64(w.infoOf[fd], b.Y); ok {
+				return int(n)
+			}
+		}
+	}
+	return 0
+}
+
 func (w *world) genTables() string {
-	return "-- GENERATED by /verif/go/extract. Do not edit.\nimport SmsVerif.Model.Layout\nnamespace SmsVerif.Gen\nend SmsVerif.Gen\n"
+	var sb strings.Builder
+	sb.WriteString("-- GENERATED by /verif/go/extract from the Go source of the repository's working tree. Do not edit.\n")
+	sb.WriteString("import SmsVerif.Model.Meta\nnamespace SmsVerif.Gen\nopen SmsVerif\n\n")
+	var metas []string
+	for _, pi := range w.pdus() {
+		isPdu := hasMethods(pi.named, "GetCommand", "GenEmptyResponse", "GetSequenceID", "SetSequenceID", "String")
+		cmd, resp, gs, ss := `.unknown "not a PDU"`, `.unknown "not a PDU"`, "?", "?"
+		if isPdu {
+			gs = w.seqGet(pi.named)
+			ss = w.seqSet(pi.named)
+			cmd = w.cmdSpec(pi.named)
+			resp = w.respSpec(pi, gs)
+		}
+		metas = append(metas, fmt.Sprintf("{ name := %s, pkg := %s, isPdu := %v, cmd := %s, resp := %s, getSeq := %s, setSeq := %s }", q(pi.name), q(pi.pkg.Types.Name()), isPdu, cmd, resp, q(gs), q(ss)))
+		_ = 0
+	}
+	fmt.Fprintf(&sb, "def metas : List PduMeta := %s\n\n", leanList(metas, "  "))
+	fmt.Fprintf(&sb, "def dispatchers : List Dispatcher := %s\n\n", leanList(w.dispatchers(), "  "))
+	sb.WriteString("end SmsVerif.Gen\n")
+	return sb.String()
 }
